@@ -93,6 +93,15 @@ CHECKS = {
              "numpy reference of requant(input + scaled synthetic) that must equal the recorded bytes sample for sample; decoded input "
              "blocks, framing and the logged gain sequence are checked directly on the implementation.",
         design="3/C14", technique="Coq proof (layout arithmetic, gain sequence induction) + plan-driven byte-level correspondence"),
+    "C12": dict(
+        text="PARTIAL by nature: a Gallina function is deterministic, so 'same seed -> same bits' is not a theorem about numpy. Proved: in the "
+             "dictionary-heap model of record() no history of earlier recordings (default or caller dictionaries, any objects) changes what a "
+             "recording writes, and a caller dictionary can be reused (the in-place variant is refuted: c12_record_unrepaired_refuted); a deep "
+             "copy's cells read equal to the original's, are fresh, and no write to one object is observable through the other. Tied to the "
+             "code by running (history ; recording) and (recording alone) in separate processes and comparing digests and the model's first "
+             "PKTIDX, same backend twice vs fresh backend, copies/pickles of frames from five construction routes mutated on either side, "
+             "seed sameness/difference sampling, and an AST scan that every generator is created from a seed argument.",
+        design="3/C12", technique="Coq heap model (history independence, copy isolation) + cross-process digest comparison"),
 }
 
 PENDING_REASON = "check not built yet in this session (planned in DESIGN.md section 3); no claim is made for it in this commit"
